@@ -228,6 +228,17 @@ def serve_run(tier, seed):
     return agg, r, n
 
 
+def notify_run(tier, seed):
+    """C11 through the P2P path: what the legacy engine stores goes out as exactly one ADD event each (scripted family)."""
+    rigbin = build_rig()
+    listed = {f["deviation"]: f for f in c.findings_for("C06") + c.findings_for("C07") if f.get("deviation")}
+    F = tuple(sorted(listed))
+    consts = dict(families(tier, F))["scr"]
+    rng = random.Random(seed)
+    out, n, r = fs.generate("C11scr", consts, sample=1500 if tier == "quick" else 20000, rng=rng, scripts=scripts_for(tier)["scr"](rng))
+    return fc.replay(rigbin, out, seed, op="sync", nproc=c.NCPU), r, n
+
+
 def serve_exp_run(tier, seed):
     """C13 at the protocol level, experimental engine: at the end of each behaviour the node asks for headers."""
     chainbin = fc.build()
